@@ -68,6 +68,9 @@ def main(tier, replay=None):
             raw = bytes.fromhex(inp)
             if (got.startswith("ok") and b"." in raw) or (got == "err" and any(48 <= b <= 57 for b in raw)):
                 nontrivial.add(key)
+        elif k == "D":
+            if got.startswith("ok") and "2e" in got:
+                nontrivial.add(key)
         else:
             if got.startswith("ok") and b"." in bytes.fromhex(got[3:]):
                 nontrivial.add(key)
@@ -78,6 +81,10 @@ def main(tier, replay=None):
         if k == "P":
             what = "StringToAmount(%r) = %s, the grammar of C15 gives %s (model: %s)" % (bytes.fromhex(inp), got, spec, model)
             case = "P:" + inp
+        elif k == "D":
+            sh = lambda r: r if not r.startswith("ok ") else "ok " + ",".join(repr(bytes.fromhex(x).decode("latin1")) for x in r[3:].split(","))
+            what = "DecodeRawTransaction of a transaction with output values [%s] answers %s, expected %s (model: %s)" % (inp, sh(got), sh(spec), sh(model))
+            case = "D:" + inp
         else:
             fn = "api.AmountToString" if k == "F" else "masswallet.AmountToString"
             what = "%s(%s) = %s, expected %s (model: %s)" % (fn, inp, _show(got), _show(spec), _show(model))
